@@ -410,7 +410,7 @@ static rc::Gen<Case> gen_heap(int tier) {
 // (b) timerqueue
 // =====================================================================================
 typedef std::pair<int64_t, int64_t> TV;  // (sec, usec), lexicographic order = time order
-static const int64_t SECLIM = (int64_t)1 << 40;
+static const int64_t SECLIM = (int64_t)1 << 62;  // time_t is 64 bits here; nothing in the interface bounds the seconds
 
 static TV tv_norm(int64_t sec, int64_t usec) {  // soundness: 0 <= usec < 10^6; seconds of either sign (a timeval before the clock's origin is still a time)
   if (usec < 0 || usec > 999999) {
@@ -637,7 +637,9 @@ static Outcome run_tq(const Case &c) {
 
 static rc::Gen<std::pair<int64_t, int64_t>> gen_tv() {
   auto sec = rc::gen::weightedOneOf<int64_t>({{8, range<int64_t>(0, 3)}, {2, range<int64_t>(0, 100)}, {1, range<int64_t>(0, 2000000000)}, {2, range<int64_t>(-3, 2)}, {1, range<int64_t>(-2000000000, 0)},
-                                              {1, rc::gen::elementOf(std::vector<int64_t>{2147483647, 2147483648LL, 4294967295LL, 4294967296LL, 4294967299LL, -2147483648LL, -2147483649LL})}});
+                                              {1, rc::gen::elementOf(std::vector<int64_t>{2147483647, 2147483648LL, 4294967295LL, 4294967296LL, 4294967299LL, -2147483648LL, -2147483649LL})},
+                                              // "never": beyond 2^63 / 10^6 seconds (where a microsecond count no longer fits 64 bits), 2^53, near the clamp
+                                              {1, rc::gen::elementOf(std::vector<int64_t>{9223372036854LL, 9223372036855LL, 10000000000000LL, (int64_t)1 << 53, ((int64_t)1 << 62) - 5, -10000000000000LL})}});
   auto usec = rc::gen::weightedOneOf<int64_t>(
       {{5, rc::gen::elementOf(std::vector<int64_t>{0, 0, 1, 2, 499999, 500000, 999998, 999999})}, {3, range<int64_t>(0, 999999)}});
   return rc::gen::pair(sec, usec);
